@@ -275,3 +275,100 @@ Example C01_nonvacuous :
   wf_world_b (run c01_ops empty_world) = true /\
   length (trees (run c01_ops empty_world)) = 2 /\ 6 <= length (all_ids (run c01_ops empty_world)).
 Proof. vm_compute. repeat split. repeat constructor. Qed.
+
+(* ====================================================================================== *)
+(* Pointer-level refinement (theories/Mut/Heap.v, HeapProofs.v, HeapRemove.v, HeapMore.v,
+   HeapMove.v, HeapRefine.v).
+
+   Heap.v models every node with the raw attributes of the Python object - _parent, _children
+   (None vs list), _tree - and writes the mutators as the sequences of assignments the methods of
+   node.py / tree.py perform.  [Rep h t]: the pointers of heap [h] are exactly the ones the forest
+   value of the machine state [t] induces.  For the operations selected by [covered_heap] the heap
+   operation returns the same result as the forest-level operation and re-establishes [Rep] - for
+   ALL arguments, error exits included - so "exactly one parent / exactly once by identity in that
+   parent's child list / never its own ancestor / owner = the tree / reachable = counted" become
+   theorems about the assignments the code executes ([HeapOK]).  Covered: add_child(data), the four
+   shortcuts, remove (plain, keep_children, with_clones), remove_children, clear, del, move_to (cross-tree
+   moves are refused by the code), sort_children (flat and deep), set_data / rename (incl. clone groups),
+   metadata edits, new tree, and the copies (add(node) shallow and deep - Node._add_from allocating node
+   by node -, add(tree), copy_to, Tree.copy, Node.copy).  Modelled at statement level and compared
+   with the implementation on every run, but without a simulation proof: in-place filter (removals
+   interleaved with the visit) and from_dict / Tree.from_dict (with the `except: remove_children(); raise`
+   handler of every level) - they are compositions of remove / remove_children and of add_child. *)
+From NT Require Import Heap HeapProofs HeapRefine.
+
+(* one step: same result, related states *)
+Theorem C01_heap_step_partial : forall hw w o, covered_heap o = true -> WFw w -> RepW hw w ->
+  fst (h_step hw o) = fst (step w o) /\ RepW (snd (h_step hw o)) (snd (step w o)).
+Proof. exact sim_step. Qed.
+Print Assumptions C01_heap_step_partial.
+
+(* the commuting square with the EXECUTABLE abstraction [abs_world] (unfold every tree's child lists from
+   its root, fuel = number of allocated nodes): abs (heap_op h) = machine_op (abs h), same result *)
+Theorem C01_heap_commutes_partial : forall hw w o, covered_heap o = true -> WFw w -> RepW hw w ->
+  abs_world hw = Some w /\
+  fst (h_step hw o) = fst (step w o) /\
+  abs_world (snd (h_step hw o)) = Some (snd (step w o)).
+Proof. exact heap_commutes. Qed.
+Print Assumptions C01_heap_commutes_partial.
+
+(* histories from the empty world: the heap stays a representation of the machine state, is
+   well-formed in pointer terms, and unfolding its child lists from the roots (with fuel = number of
+   allocated nodes, i.e. no cycle) yields exactly the machine's tree states *)
+Theorem C01_heap_refinement_partial : forall ops, forallb covered_heap ops = true ->
+  RepW (h_run ops h_empty_world) (run ops empty_world) /\
+  Forall HeapOK (htrees (h_run ops h_empty_world)) /\
+  map abs_tstate (htrees (h_run ops h_empty_world)) = map Some (trees (run ops empty_world)).
+Proof. exact heap_refinement. Qed.
+Print Assumptions C01_heap_refinement_partial.
+
+Definition C01_heap_refinement_full_statement : Prop :=
+  forall ops, RepW (h_run ops h_empty_world) (run ops empty_world).
+
+(* the abstraction function on a representing heap *)
+Theorem C01_heap_abstraction : forall h t, WF t -> Rep h t ->
+  abs_forest h = Some (forest_of t) /\ abs_tstate h = Some t.
+Proof. exact abs_correct. Qed.
+Print Assumptions C01_heap_abstraction.
+
+(* the property's own words, about the raw pointers *)
+Theorem C01_heap_ok : forall h t, WF t -> Rep h t -> HeapOK h.
+Proof. exact Rep_HeapOK. Qed.
+Print Assumptions C01_heap_ok.
+
+Theorem C01_heap_exactly_one_parent : forall h, HeapOK h -> forall n, In n (hreg h) ->
+  exists p, hpar h n = Some p /\ (p = 0 \/ In p (hreg h)) /\ In n (hch h p) /\ NoDup (hch h p) /\
+            forall q, In n (hch h q) -> q = p.
+Proof.
+  intros h H n Hn. destruct (ok_parent h H n Hn) as (p & Hp & Lp). exists p. refine (conj Hp (conj Lp (conj _ (conj (ok_once h H p) _)))).
+  - apply (ok_link h H p n). now split.
+  - intros q Hq. apply (ok_link h H q n) in Hq. destruct Hq as [_ Hq]. congruence.
+Qed.
+Print Assumptions C01_heap_exactly_one_parent.
+
+Theorem C01_heap_never_own_ancestor : forall h, HeapOK h -> forall n, In n (hreg h) -> ~ In n (anc_heap (h_fuel h) h n).
+Proof. intros h H. exact (ok_acyclic h H). Qed.
+Print Assumptions C01_heap_never_own_ancestor.
+
+Theorem C01_heap_owner_and_count : forall h, HeapOK h ->
+  (forall n, In n (hreg h) -> htr h n = true) /\
+  exists f, abs_forest h = Some f /\ Permutation (hreg h) (ids f) /\ NoDup (ids f) /\ length (hreg h) = length (ids f).
+Proof.
+  intros h H. split; [exact (ok_owner h H)|]. destruct (ok_reach h H) as (f & A & P & N). exists f. repeat split; auto. now apply Permutation_length.
+Qed.
+Print Assumptions C01_heap_owner_and_count.
+
+(* what the code does to the pointers of a removed node: remove() clears _parent, _tree and _children
+   of the node and of every descendant *)
+Example C01_heap_removed_pointers :
+  let ops := [ONewTree false None; OAdd 0 0 (c01_dd 10) None None BNone; OAdd 0 1 (c01_dd 20) None None BNone;
+              OAdd 0 2 (c01_dd 30) None None BNone; OAdd 0 0 (c01_dd 40) None None BNone;
+              OMove 0 4 0 1 (BIdx 0); ORemove 0 2 false false] in
+  forallb covered_heap ops = true /\
+  match htrees (h_run ops h_empty_world) with
+  | [h] => hch h 0 = [1] /\ hch h 1 = [4] /\ hpar h 4 = Some 1 /\
+           hpar h 2 = None /\ htr h 2 = false /\ hch h 2 = [] /\ hpar h 3 = None /\ htr h 3 = false /\
+           abs_forest h = option_map forest_of (nth_error (trees (run ops empty_world)) 0)
+  | _ => False
+  end.
+Proof. vm_compute. repeat split. Qed.
